@@ -61,6 +61,9 @@ type schedObs struct {
 	RaceReport string
 	Stalled    bool // finished free-running: a task blocked on a parked task
 	Foreign    bool // finished without preemption: the library started goroutines of its own
+	// ColdFallback: the fresh child process of the cold phase could not be
+	// used (reason); the scenario was evaluated in the worker instead
+	ColdFallback string
 }
 
 type taskEnv struct {
@@ -478,30 +481,47 @@ type coldResult struct {
 // (package-level caches and scratch buffers) is cold when the interleaved run
 // starts.
 func runColdChild(s *Scenario) (*Failure, *schedObs) {
+	// Trouble with the child process itself (no scratch space, fork failure,
+	// unreadable output) is never the library's doing: the scenario is then
+	// evaluated in this process instead (warm), and counted.
+	fallback := func(why string) (*Failure, *schedObs) {
+		f, obs := checkC19(s)
+		if obs == nil {
+			obs = &schedObs{}
+		}
+		obs.ColdFallback = why
+		return f, obs
+	}
 	dir := os.Getenv("VERIF_SCRATCH_DIR")
 	if dir == "" {
 		dir = os.TempDir()
 	}
 	f, err := os.CreateTemp(dir, "cold-*.json")
 	if err != nil {
-		panic(err)
+		return fallback("temp file: " + err.Error())
 	}
 	name := f.Name()
 	f.Close()
 	defer os.Remove(name)
 	defer os.Remove(name + ".racelog")
 	if err := writeScenario(name, s); err != nil {
-		panic(err)
+		return fallback("write scenario: " + err.Error())
 	}
-	cmd := exec.Command(os.Args[0], "cold", "-nsites", fmt.Sprint(nSites), "-racelog", name+".racelog", name)
-	cmd.Env = os.Environ()
-	out, err := cmd.Output()
+	var out []byte
+	for attempt := 0; attempt < 2; attempt++ {
+		cmd := exec.Command(os.Args[0], "cold", "-nsites", fmt.Sprint(nSites), "-racelog", name+".racelog", name)
+		cmd.Env = os.Environ()
+		out, err = cmd.Output()
+		if err == nil {
+			break
+		}
+	}
 	if err != nil {
-		panic(fmt.Sprintf("cold child failed: %v", err))
+		return fallback("child: " + err.Error())
 	}
 	var r coldResult
 	if err := json.Unmarshal(out, &r); err != nil {
-		panic(fmt.Sprintf("cold child output: %v: %s", err, trunc(string(out), 300)))
+		return fallback("child output: " + err.Error())
 	}
 	if r.Obs == nil {
 		r.Obs = &schedObs{}
